@@ -125,9 +125,10 @@ func CheckWalkTransform(b *trav.Built, c WCase) (fs []core.Finding, outcome stri
 			}
 		}
 	}()
-	var res datamodel.Node
+	var res, res2 datamodel.Node
+	var err2 error
 	pan := core.Guard(func() {
-		res, err = traversal.Progress{Cfg: b.Config()}.WalkTransforming(b.Root, sel, func(p traversal.Progress, n datamodel.Node) (datamodel.Node, error) {
+		fn := func(p traversal.Progress, n datamodel.Node) (datamodel.Node, error) {
 			switch c.Fn {
 			case "constant":
 				return ref.Basic(ref.Int(99)), nil
@@ -136,7 +137,10 @@ func CheckWalkTransform(b *trav.Built, c WCase) (fs []core.Finding, outcome stri
 				return ref.Basic(ref.List(v)), nil
 			}
 			return n, nil
-		})
+		}
+		res, err = traversal.Progress{Cfg: b.Config()}.WalkTransforming(b.Root, sel, fn)
+		// the same compiled selector once more: a transform leaves the selector as it found it
+		res2, err2 = traversal.Progress{Cfg: b.Config()}.WalkTransforming(b.Root, sel, fn)
 	})
 	crossesLink := len(trav.Denote(b.G, c.Sel).Loads) > 0
 	site := "walktransform/" + c.Fn
@@ -162,6 +166,11 @@ func CheckWalkTransform(b *trav.Built, c WCase) (fs []core.Finding, outcome stri
 			cause = "loaded-block-inlined-instead-of-relinked"
 		}
 		fs = append(fs, core.F(site+"/"+cause, "%s: expected %s, got %s", where, want, got))
+	}
+	if err2 != nil {
+		fs = append(fs, core.F(site+"/second-use-of-selector/error("+core.Class(err2.Error())+")", "%s: %v", where, err2))
+	} else if got2, incs2 := ref.Observe(res2); len(incs2) > 0 || !ref.Equal(got2, got) {
+		fs = append(fs, core.F(site+"/second-use-of-selector/result-differs", "%s: first use %s, second use of the same compiled selector %s %v", where, got, got2, incs2))
 	}
 	if len(fs) > 0 {
 		return fs, "bad"
@@ -221,6 +230,11 @@ func init() {
 			wtSelectors = append(wtSelectors, s)
 		}
 	}
+	// one selector step applied to several nodes of one walk (records in a list, each maybe its own block)
+	ab := trav.Fld(trav.F1("a", trav.M()), trav.F1("b", trav.M()))
+	wtSelectors = append(wtSelectors, trav.All(ab), trav.All(trav.Rng(0, 2, trav.M())), trav.All(trav.All(trav.M())),
+		trav.All(trav.Fld(trav.F1("b", trav.M()), trav.F1("c", trav.M()))),
+		trav.Rec(-1, trav.All(trav.Un(trav.Edge(), ab))))
 	wtSelectors = append(wtSelectors, trav.Rec(-1, trav.Un(trav.M(), trav.All(trav.Edge()))), trav.Rec(-1, trav.All(trav.Un(trav.Edge(), trav.Fld(trav.F1("a", trav.M()))))))
 }
 
